@@ -298,6 +298,7 @@ def run_fetch(case: dict[str, Any], validator: Any, timeout_s: float = 30.0) -> 
         max_speculative_hedges=c["max_hedges"],
     )
     validated: list[str] = []
+    rejections: list[str] = []
 
     def wrapped_validator(u: str) -> None:
         att, key = rec.locate()
@@ -306,7 +307,14 @@ def run_fetch(case: dict[str, Any], validator: Any, timeout_s: float = 30.0) -> 
             key = "main"
         att["validated"].setdefault(str(key), []).append(u)
         validated.append(u)
-        validator(u)
+        try:
+            validator(u)
+        except Exception as e:  # noqa: BLE001
+            # tag the refusal (no URL material in the tag) so that the error fetch_url finally raises names WHICH
+            # refusal it stems from: on the parallel path several tasks can be refused at different URLs
+            n = len(rejections)
+            rejections.append(u)
+            raise type(e)(f"{e} [refusal #{n}]") from None
 
     loop = VirtualLoop()
     thread = threading.Thread(target=loop.run_forever, daemon=True, name="c31-virtual-loop")
@@ -367,5 +375,6 @@ def run_fetch(case: dict[str, Any], validator: Any, timeout_s: float = 30.0) -> 
         att.pop("task_ids", None)
     obs["attempts"] = rec.attempts
     obs["validated"] = validated
+    obs["rejections"] = rejections
     obs["logs"] = logcap.records
     return obs
